@@ -155,3 +155,254 @@ theorem lost_closed (s : S) (h : s.lost = false) : (step s .lost).st = .closed :
   cases st <;> simp [St.rank] at h2 ⊢
 
 end Abverif.Ws
+
+namespace Abverif.Ws
+
+/-! ### nothing is delivered or written after the close notification -/
+
+def Out.isRaised : Out → Bool
+  | .raised _ => true
+  | _ => false
+
+/-- a connection whose transport is gone -/
+def Dead (s : S) : Prop := s.lost = true ∧ s.st = .closed
+
+/-- `b` is `a` plus exceptions raised to the caller: nothing written, delivered, dropped or notified -/
+def OnlyRaised (a b : S) : Prop := Dead b ∧ ∃ d, b.log = a.log ++ d ∧ ∀ o ∈ d, o.isRaised = true
+
+theorem OnlyRaised.refl {a : S} (h : Dead a) : OnlyRaised a a := ⟨h, [], by simp, by simp⟩
+
+theorem OnlyRaised.trans {a b c : S} (h1 : OnlyRaised a b) (h2 : OnlyRaised b c) : OnlyRaised a c := by
+  obtain ⟨_, d1, e1, n1⟩ := h1
+  obtain ⟨hc, d2, e2, n2⟩ := h2
+  refine ⟨hc, d1 ++ d2, by rw [e2, e1, List.append_assoc], ?_⟩
+  intro o ho
+  rcases List.mem_append.mp ho with h | h
+  · exact n1 o h
+  · exact n2 o h
+
+theorem OnlyRaised.raise {a : S} (h : Dead a) (e : Err) : OnlyRaised a (a.emit (.raised e)) :=
+  ⟨h, [.raised e], rfl, by simp [Out.isRaised]⟩
+
+theorem fire_dead (s : S) (k : TK) (h : Dead s) : OnlyRaised s (fire s k) := by
+  have hi := timers_inert_after_close' s k h.2
+  refine ⟨⟨?_, hi.2⟩, [], by simp [hi.1], by simp⟩
+  rw [(fire_Ext s k).lost]; exact h.1
+where
+  timers_inert_after_close' (s : S) (k : TK) (h : s.st = .closed) : (fire s k).log = s.log ∧ (fire s k).st = .closed := by
+    cases k
+    · simp [fire, h]
+    · simp [fire, h]
+    · simp [fire, h]
+    · simp [fire, h]
+    · have hp : sendPing (beginAutoPing s) ((beginAutoPing s).pingPending.getD []) = beginAutoPing s := by
+        unfold sendPing
+        rw [if_pos (by simp [beginAutoPing, h])]
+      simp only [fire, sendAutoPing, hp]
+      split <;> simp [armPingTimeout, S.timer, beginAutoPing, h]
+    · simp only [fire, sendTick]
+      split
+      · simp [S.timer, S.emit, h]
+      · simp [h]
+
+theorem advanceTo_dead (target fuel : Nat) (s : S) (h : Dead s) : OnlyRaised s (advanceTo target fuel s) := by
+  induction fuel generalizing s with
+  | zero => exact OnlyRaised.refl h
+  | succ n ih =>
+    unfold advanceTo
+    split
+    · rename_i k d q hn
+      split
+      · have h1 : Dead { s with now := max s.now d } := h
+        have h2 := fire_dead { s with now := max s.now d } k h1
+        have h3 := ih _ h2.1
+        exact OnlyRaised.trans (a := s) ⟨h2.1, h2.2⟩ h3
+      · exact ⟨h, [], by simp, by simp⟩
+    · exact ⟨h, [], by simp, by simp⟩
+
+/-- **silent_after_onClose**: once the transport is gone (and the close notification delivered), no operation of any
+kind — late data, timers, API calls — writes, delivers, drops or notifies anything; API calls at most raise -/
+theorem silent_after_onClose (s : S) (op : Op) (h : Dead s) : OnlyRaised s (step s op) := by
+  unfold step pump
+  have core : OnlyRaised s (stepCore s op) := by
+    have hst := h.2
+    have hl := h.1
+    cases op <;> simp only [stepCore]
+    · simp [dataReceived, hl]; exact OnlyRaised.refl h
+    · rw [connectionLost_idem s hl]; exact OnlyRaised.refl h
+    · exact advanceTo_dead _ _ _ h
+    · simp [sendMessage, hst]; exact OnlyRaised.raise h _
+    · unfold sendPrepared
+      dsimp only
+      have hk : Dead (prepareKey s).1 := by
+        unfold prepareKey; split <;> exact h
+      have hlog : (prepareKey s).1.log = s.log := by unfold prepareKey; split <;> rfl
+      split
+      · exact ⟨hk, [.raised .exception], by simp [S.emit, hlog], by simp [Out.isRaised]⟩
+      · rw [if_pos (by rw [hk.2]; simp)]
+        exact ⟨hk, [.raised .disconnected], by simp [S.emit, hlog], by simp [Out.isRaised]⟩
+    · simp [beginMessage, hst]; exact OnlyRaised.refl h
+    · simp [beginMessageFrame, hst]; exact OnlyRaised.refl h
+    · simp [sendMessageFrameData, hst]; exact OnlyRaised.refl h
+    · simp [endMessage, hst]; exact OnlyRaised.refl h
+    · simp [sendMessageFrame, hst]; exact OnlyRaised.refl h
+    · simp [sendPing, hst]; exact OnlyRaised.refl h
+    · simp [sendPong, hst]; exact OnlyRaised.refl h
+    · unfold sendClose
+      split
+      · exact OnlyRaised.raise h _
+      · split
+        · exact OnlyRaised.raise h _
+        · simp [sendCloseFrame, hst]; exact OnlyRaised.refl h
+    · simp [handshakeDone, hst]; exact OnlyRaised.refl h
+    · simp [handshakeDone, hst, dataReceived, hl]; exact OnlyRaised.refl h
+  exact OnlyRaised.trans core (advanceTo_dead _ _ _ core.1)
+
+/-- after the transport is gone the connection stays dead for the whole rest of the history -/
+theorem dead_forever (s : S) (ops : List Op) (h : Dead s) : Dead (run s ops) := by
+  induction ops generalizing s with
+  | nil => exact h
+  | cons op ops ih =>
+    simp only [run, List.foldl_cons]
+    exact ih _ (silent_after_onClose s op h).1
+
+end Abverif.Ws
+
+namespace Abverif.Ws
+
+/-! ### at most one close frame, and only a legal one -/
+
+/-- invariant on the record of close frames sent (`closeSent` is a history variable appended to by `sendCloseFrame`
+at the place where it hands the frame `8 ‖ closePayload code reason` to `sendFrame`) -/
+def CloseInv (s : S) : Prop :=
+  s.closeSent.length ≤ 1 ∧ (s.closeSent ≠ [] → 2 ≤ s.st.rank) ∧ ∀ x ∈ s.closeSent, LegalClose x
+
+theorem Ext.closeInv {a b : S} (h : Ext a b) (ha : CloseInv a) : CloseInv b := by
+  obtain ⟨h1, h2, h3⟩ := ha
+  rcases h.cs with e | ⟨ra, rb, x, ex, lx⟩
+  · rw [CloseInv, e]
+    exact ⟨h1, fun hne => Nat.le_trans (h2 hne) h.rank, h3⟩
+  · have hnil : a.closeSent = [] := by
+      cases hcs : a.closeSent with
+      | nil => rfl
+      | cons y ys => have := h2 (by simp [hcs]); omega
+    rw [CloseInv, ex, hnil]
+    refine ⟨by simp, fun _ => rb, ?_⟩
+    intro y hy
+    simp at hy; subst hy; exact lx
+
+theorem connectionLost_closeSent (s : S) : (connectionLost s).closeSent = s.closeSent := by
+  unfold connectionLost
+  split
+  · rfl
+  · unfold reportClose markClosed cancelOnLost
+    split <;> split <;> (try split) <;> rfl
+
+theorem step_closeInv (s : S) (op : Op) (h : CloseInv s) : CloseInv (step s op) := by
+  unfold step
+  refine (pump_Ext _).closeInv ?_
+  by_cases hop : op = .lost
+  · subst hop
+    simp only [stepCore]
+    obtain ⟨h1, h2, h3⟩ := h
+    rw [CloseInv, connectionLost_closeSent]
+    exact ⟨h1, fun hne => Nat.le_trans (h2 hne) (connectionLost_rank s), h3⟩
+  · exact (stepCore_Ext s op hop).closeInv h
+
+theorem run_closeInv (s : S) (ops : List Op) (h : CloseInv s) : CloseInv (run s ops) := by
+  induction ops generalizing s with
+  | nil => exact h
+  | cons op ops ih =>
+    simp only [run, List.foldl_cons]
+    exact ih _ (step_closeInv s op h)
+
+theorem start_closeInv (cfg : Cfg) : CloseInv (start cfg) := by
+  unfold start CloseInv
+  dsimp only
+  split <;> simp [armPingNext, S.timer]
+
+/-- **one_close_frame / close_frame_legal**: for every configuration and every history, at most one close frame is
+ever sent; when one has been sent the connection is CLOSING or CLOSED; and its status code is one RFC 6455 §7.4 allows
+on the wire (whether it comes from `sendClose`, from a failure, or is the echoed peer code) and its reason is at most
+123 octets long -/
+theorem one_close_frame (cfg : Cfg) (ops : List Op) :
+    (run (start cfg) ops).closeSent.length ≤ 1 ∧
+    ((run (start cfg) ops).closeSent ≠ [] → 2 ≤ (run (start cfg) ops).st.rank) ∧
+    ∀ x ∈ (run (start cfg) ops).closeSent, LegalClose x :=
+  run_closeInv _ ops (start_closeInv cfg)
+
+/-- the frame handed to `sendFrame` for a recorded close is exactly opcode 8 with payload `code ‖ reason` -/
+theorem close_frame_on_wire (s : S) (code : Option Nat) (reason : Option Bytes) (r : Bool) (h : s.st = .opened) :
+    ∃ s', s' = sendFrame s 8 (closePayload code reason) ∧
+      (sendCloseFrame s code reason r).log = s'.log ∧
+      (sendCloseFrame s code reason r).closeSent = s.closeSent ++ [(code, reason)] := by
+  refine ⟨_, rfl, ?_, ?_⟩
+  · unfold sendCloseFrame
+    simp only [h]
+    split <;> rfl
+  · unfold sendCloseFrame
+    simp only [h]
+    have := (sendFrame_SendEq s 8 (closePayload code reason) true 0 false 0).closeSent
+    split
+    · show (sendFrame s 8 (closePayload code reason)).closeSent ++ _ = _; rw [this]
+    · show (sendFrame s 8 (closePayload code reason)).closeSent ++ _ = _; rw [this]
+
+/-- the payload of a close frame is never of length 1 (a status code takes two octets) -/
+theorem closePayload_length (code : Option Nat) (reason : Option Bytes) (h : reason.isSome → code.isSome) :
+    (closePayload code reason).length ≠ 1 := by
+  unfold closePayload
+  cases code with
+  | none =>
+    cases reason with
+    | none => simp
+    | some r => simp at h
+  | some c => simp [beBytes_length']; omega
+where
+  beBytes_length' (k n : Nat) : (beBytes k n).length = k := by
+    induction k generalizing n with
+    | zero => rfl
+    | succ k ih => simp [beBytes, ih]
+
+end Abverif.Ws
+
+namespace Abverif.Ws
+
+/-! ### once closing has begun a drop timer is armed -/
+
+theorem step_cbInv (s : S) (op : Op) (h : CBInv s) : CBInv (step s op) := by
+  unfold step
+  refine (pump_Ext _).cb ?_
+  by_cases hop : op = .lost
+  · subst hop
+    simp only [stepCore]
+    intro hc
+    by_cases hl : s.lost = true
+    · rw [connectionLost_idem s hl] at hc ⊢; exact h hc
+    · have := (connectionLost_closed s (by simpa using hl)).1
+      rw [this] at hc; cases hc
+  · exact (stepCore_Ext s op hop).cb h
+
+theorem start_cbInv (cfg : Cfg) : CBInv (start cfg) := by
+  unfold start CBInv
+  dsimp only
+  split <;> simp [armPingNext, S.timer]
+
+/-- **closing_has_timer** (the invariant behind "closing is bounded"): in every reachable state, for every
+configuration and history, a connection in CLOSING has the closing-handshake timer armed, or is a client with the
+server-connection-drop timer armed — unless the respective timeout is configured to 0 (disabled).  Together with
+`close_timeout_drops` / `server_drop_timeout_drops` (C17) — an armed timer whose deadline has passed means CLOSED — and
+`batched_le` (the deadline is never later than now + timeout), CLOSING cannot outlive the configured timeouts. -/
+theorem closing_has_timer (cfg : Cfg) (ops : List Op) : CBInv (run (start cfg) ops) := by
+  suffices ∀ (s : S), CBInv s → CBInv (run s ops) from this _ (start_cbInv cfg)
+  induction ops with
+  | nil => intro s h; exact h
+  | cons op ops ih =>
+    intro s h
+    simp only [run, List.foldl_cons]
+    exact ih _ (step_cbInv s op h)
+
+/-- non-vacuity: a client that answered the server's close frame is CLOSING with the server-drop timer armed -/
+example : (run (start { isServer := false }) [.feed [0x88, 0x00]]).st = .closing ∧
+    (run (start { isServer := false }) [.feed [0x88, 0x00]]).tServerDrop.isSome = true := by decide
+
+end Abverif.Ws
